@@ -425,7 +425,10 @@ public:
 			}
 			// adjust the shift
 			bitsToShift -= static_cast<int>(blockShift * bitsInBlock);
-			if (bitsToShift == 0) return *this;
+			if (bitsToShift == 0) {
+				_block[MSU] &= MSU_MASK; // bits shifted beyond nbits must not linger in the most significant block
+				return *this;
+			}
 		}
 		if constexpr (MSU > 0) {
 			// construct the mask for the upper bits in the block that needs to move to the higher word
@@ -438,6 +441,7 @@ public:
 			}
 		}
 		_block[0] <<= bitsToShift;
+		_block[MSU] &= MSU_MASK; // bits shifted beyond nbits must not linger in the most significant block
 		return *this;
 	}
 	// arithmetic shift right operator
